@@ -312,6 +312,141 @@ func init() {
 		}})
 }
 
+func init() {
+	register(&Rule{ID: "CS.after", Min: 4, Text: "durable write ≺ cache population (MongoDB backend): in a mongo.Client method that both writes a collection and populates a cache bound to it (Cache.Add on the bound cache field; ReplaceOrInsert/ExpandRange on a ChangeStore taken from changeCache), no collection write is reachable after the population, and the population is unreachable from the edge on which the write returned an error — otherwise a failed write leaves rows in the cache that the store never got, under sequence numbers that are handed out again, and the cache answers differently from the store",
+		Run: func(x *Ctx) {
+			clientT := x.P.Named(mongoPkg + ".Client")
+			if clientT == nil {
+				x.C.Unresolved(x.id(), mongoPkg+".Client")
+				return
+			}
+			bound := map[string][]string{"documents": {"docCache"}, "clients": {"clientCache"}, "changes": {"changeCache"}, "versionvectors": {"vectorCache"}, "projects": {"projectCache"}}
+			writeOps := map[string]bool{"InsertOne": true, "InsertMany": true, "UpdateOne": true, "UpdateMany": true, "FindOneAndUpdate": true, "BulkWrite": true, "ReplaceOne": true, "FindOneAndReplace": true}
+			colOf := func(v ssa.Value) string {
+				c, ok := prog.Strip(v).(*ssa.Call)
+				if !ok || prog.CallObj(c) == nil || prog.CallObj(c).Name() != "collection" {
+					return ""
+				}
+				for _, a := range c.Call.Args {
+					if k, ok := a.(*ssa.Const); ok && k.Value != nil && k.Value.Kind() == constant.String {
+						return constant.StringVal(k.Value)
+					}
+				}
+				return ""
+			}
+			// the cache field a value was taken from (cache.Get(...) result) or, for the field itself, its name
+			cacheOf := func(v ssa.Value) string {
+				name := ""
+				if f := prog.LoadedField(v); f != nil && strings.HasSuffix(f.Name(), "Cache") {
+					return f.Name()
+				}
+				prog.Reaches(v, func(w ssa.Value) bool {
+					if ex, ok := w.(*ssa.Extract); ok {
+						w = ex.Tuple
+					}
+					c, ok := w.(*ssa.Call)
+					if !ok || prog.CallObj(c) == nil {
+						return false
+					}
+					if r := recvOf(c); r != nil {
+						if f := prog.LoadedField(r); f != nil && strings.HasSuffix(f.Name(), "Cache") {
+							name = f.Name()
+							return true
+						}
+					}
+					return false
+				})
+				return name
+			}
+			n := 0
+			for _, fn := range x.P.FuncsIn(mongoPkg) {
+				if fn.Parent() != nil || fn.Signature.Recv() == nil || !isNamed(fn.Signature.Recv().Type(), clientT) {
+					continue
+				}
+				type wr struct {
+					col  string
+					call *ssa.Call
+				}
+				var writes []wr
+				type pop struct {
+					cache string
+					call  ssa.CallInstruction
+				}
+				var pops []pop
+				for _, c := range prog.CallsIn(fn) {
+					o := prog.CallObj(c)
+					r := recvOf(c)
+					if o == nil || r == nil {
+						continue
+					}
+					if writeOps[o.Name()] {
+						if col := colOf(r); col != "" {
+							if cc, ok := c.(*ssa.Call); ok {
+								writes = append(writes, wr{col, cc})
+							}
+						}
+						continue
+					}
+					switch o.Name() {
+					case "Add", "ReplaceOrInsert", "ExpandRange":
+						if cch := cacheOf(r); cch != "" {
+							pops = append(pops, pop{cch, c})
+						}
+					}
+				}
+				pi := map[string]int{}
+				for _, p := range pops {
+					pi[p.cache]++
+					for _, w := range writes {
+						isBound := false
+						for _, b := range bound[w.col] {
+							if b == p.cache {
+								isBound = true
+							}
+						}
+						if !isBound {
+							continue
+						}
+						n++
+						k := fmt.Sprintf("method=mongo.Client.%s cache=%s populate#%d(%s) after-write=%s", fn.Name(), p.cache, pi[p.cache], prog.CallObj(p.call).Name(), w.col)
+						if prog.MayPrecede(p.call, w.call) && !(w.call.Block().Dominates(p.call.Block()) && w.call.Block() != p.call.Block()) {
+							x.fail(k, x.pos(p.call), "the cache is populated before the rows are written to collection "+w.col+" (at "+x.pos(w.call)+"): if the write fails the cache holds rows the store never got, and serves them")
+							continue
+						}
+						// where the write's error surfaces: its own error result, or — FindOneAnd* return a
+						// *SingleResult — the Decode/Err called on that result
+						var errAt []ssa.Value
+						if tup, ok := w.call.Type().(*types.Tuple); ok && tup.Len() > 0 && isErrorType(tup.At(tup.Len()-1).Type()) {
+							errAt = append(errAt, w.call)
+						} else if isErrorType(w.call.Type()) {
+							errAt = append(errAt, w.call)
+						} else {
+							for _, r := range *w.call.Referrers() {
+								if rc, ok := r.(*ssa.Call); ok && recvOf(rc) == ssa.Value(w.call) {
+									if isErrorType(rc.Type()) {
+										errAt = append(errAt, rc)
+									}
+								}
+							}
+						}
+						if len(errAt) == 0 {
+							x.fail(k, x.pos(w.call), "the error of the write to collection "+w.col+" is never looked at before the cache is populated")
+							continue
+						}
+						for _, ea := range errAt {
+							e := errNilCmp(ea)
+							e.Want = NE
+							x.rejectOn(k, p.call, e)
+						}
+					}
+				}
+			}
+			if n < 4 {
+				x.C.Vacuous(x.id()+" populate/write pairs", n, 4)
+			}
+		}})
+}
+
 func isFieldVal(v ssa.Value, f *types.Var) bool {
 	fv, ok := prog.Strip(v).(*ssa.Field)
 	return ok && prog.FieldVar(fv) == f
